@@ -56,20 +56,22 @@ func (f *Logbitp) Call(s *slip.Scope, args slip.List, depth int) slip.Object {
 			if (uint64(ti)>>int(index))&0x01 == 1 {
 				return slip.True
 			}
+		} else if ti < 0 {
+			// In two's complement a negative integer has ones all the way up.
+			return slip.True
 		}
 	case *slip.Bignum:
-		ba := (*big.Int)(ti).Bytes()
-		reverseBytes(ba)
-		bo := int(index) / 8
-		if bo < len(ba) {
-			if 0 < (*big.Int)(ti).Sign() {
-				if (ba[bo]>>(index%8))&0x01 == 1 {
-					return slip.True
-				}
-			} else {
-				if (ba[bo]>>(index%8))&0x01 != 1 {
-					return slip.True
-				}
+		bi := (*big.Int)(ti)
+		if 0 <= bi.Sign() {
+			if bi.Bit(int(index)) == 1 {
+				return slip.True
+			}
+		} else {
+			// The bits of a negative integer are the inverted bits of
+			// (lognot integer), which is not negative.
+			var not big.Int
+			if not.Not(bi).Bit(int(index)) == 0 {
+				return slip.True
 			}
 		}
 	default:
